@@ -7,7 +7,7 @@ open Sonic.Spec.WsStream Sonic.Model.WsStream Driver.WsStreamSpec
 
 /-- Non-default branches reached by a step (coverage only). -/
 def tagsOf (m m' : M) (op : Op) (ob : Obs) : List String :=
-  let readTags (e : Err) : List String :=
+  let readTags (e : Err) (gated : Bool) : List String :=
     (match e with
       | .proto .rsv => ["viol-rsv"] | .proto .masked => ["viol-masked"] | .proto .ctlFin => ["viol-ctl-nofin"]
       | .proto .ctlBig => ["viol-ctl-big"] | .proto .opcode => ["viol-opcode"] | .unexpCont => ["frag-unexpected-cont"]
@@ -15,17 +15,17 @@ def tagsOf (m m' : M) (op : Op) (ob : Obs) : List String :=
       | .ioerr => ["transport-error"] | .nodata => [] | _ => []) ++
     (if e.isProto ∧ m.state = .closedByUs then ["violation-after-our-close"] else []) ++
     (if e.isProto ∧ m.state = .active then ["close-1002-queued"] else []) ++
-    (if e = .eof ∧ !canRead (flush m) then (match op with
+    (if e = .eof ∧ gated then (match op with
         | .nextFrame true | .nextMsg true _ => ["gated-eof-async"] | _ => ["gated-eof-sync"]) else []) ++
-    (if e = .eof ∧ canRead (flush m) then ["abnormal-1006"] else []) ++
+    (if e = .eof ∧ !gated then ["abnormal-1006"] else []) ++
     (if m.state = .active ∧ m'.state = .closedByPeer then ["peer-close-answered"] else []) ++
     (if m.state = .closedByUs ∧ m'.state = .closeAcked then ["close-acked"] else []) ++
     (if m.state = .active ∧ m'.pending.any (fun f => f.op == 10) then ["pong-queued"] else []) ++
     (if m.state = .closedByUs ∧ m.inq.head?.map (·.op) = some 9 ∧ e = .nil then ["ping-after-our-close"] else [])
   match op, ob with
-  | .nextFrame _, .ok (.frame e _) _ => readTags e
+  | .nextFrame _, .ok (.frame e _) _ => readTags e (!canRead m)
   | .nextMsg _ _, .ok (.msg e _ _ _ _ ctl) _ =>
-      readTags e ++ (if ctl.length > 0 then ["control-inside-message"] else []) ++
+      readTags e (!canRead m || ctl.any (fun c => c.1 == 8)) ++ (if ctl.length > 0 then ["control-inside-message"] else []) ++
       (if e = .nil ∧ m.inq.length - m'.inq.length - ctl.length > 1 then ["fragmented-message"] else [])
   | .write _ _ _, .ok (.call e) _ | .writeFrame _ _ _ _, .ok (.call e) _ =>
       (if e = .cancelled then ["write-refused"] else []) ++ (if e = .tooBig then ["write-too-big"] else []) ++
